@@ -2,11 +2,14 @@
 //! whose domain contains i32::MIN the negated value 2^31 is not an i32 (assumption A-VIEWRANGE of unit views).
 //! constraints::binary_not_equals(x, y) posts x + (-1)*y != 0: with x = y = i32::MIN debug builds panic (overflow in
 //! AffineView::map), release builds wrap and report the model SATISFIABLE although x != y has no solution.
+//! Second shape (seeding round 10, side observation): x in [0, i32::MAX], v = x.scaled(2): Solver::upper_bound(&v) panics in a debug
+//! build and is -2 in a release build (a root upper bound below the lower bound 0).
 //! Exit 1 = reproduced.
 use pumpkin_solver::constraints;
 use pumpkin_solver::constraints::Constraint;
 use pumpkin_solver::results::SatisfactionResult;
 use pumpkin_solver::termination::Indefinite;
+use pumpkin_solver::variables::TransformableVariable;
 use pumpkin_solver::Solver;
 
 fn case(lo: i32, hi: i32, removed: i32) -> Result<String, String> {
@@ -36,6 +39,17 @@ fn main() {
     let mut bad = vec![];
     for (lo, hi, v) in [(i32::MAX, i32::MAX, i32::MAX), (i32::MIN, i32::MIN, i32::MIN), (5, 5, 5)] {
         match case(lo, hi, v) { Ok(s) => println!("ok: x in [{lo}, {hi}], x != {v}: {s}"), Err(e) => bad.push(e) }
+    }
+    let r = std::panic::catch_unwind(|| {
+        let mut solver = Solver::default();
+        let x = solver.new_bounded_integer(0, i32::MAX);
+        let v = x.scaled(2);
+        (solver.lower_bound(&v), solver.upper_bound(&v))
+    });
+    match r {
+        Ok((lb, ub)) if lb <= ub => println!("ok: x in [0, i32::MAX], 2x in [{lb}, {ub}]"),
+        Ok((lb, ub)) => bad.push(format!("x in [0, i32::MAX]: root bounds of x.scaled(2) are [{lb}, {ub}]")),
+        Err(_) => bad.push("x in [0, i32::MAX]: Solver::upper_bound(&x.scaled(2)) panics (arithmetic overflow)".to_string()),
     }
     if !bad.is_empty() { println!("REPRODUCED: {}", bad.join(" | ")); std::process::exit(1); }
 }
